@@ -214,7 +214,7 @@ class TlcResult:
             self.invariant_violated = m.group(1)
         if "Deadlock reached" in out:
             self.invariant_violated = self.invariant_violated or "deadlock"
-        if re.search(r"The postcondition .* evaluated to FALSE|Evaluating assumption .* failed|Assumption .* is false", out):
+        if re.search(r"Postcondition \S+ .* is false|The postcondition .* evaluated to FALSE|Evaluating assumption .* failed|Assumption .* is false", out):
             self.invariant_violated = self.invariant_violated or "postcondition"
         self.parse_error = ("Parsing or semantic analysis failed" in out) or ("TLC threw an unexpected exception" in out and not self.invariant_violated)
         self.violated = self.invariant_violated is not None
